@@ -522,7 +522,8 @@ func instrumentPackage(p *packages.Package, simPath string, callable *types.Inte
 		src = fixImports(fname, src, simPath)
 		out := fname
 		if isMain {
-			outDir = filepath.Join(filepath.Dir(fname), "verifcli")
+			// always at the module root, wherever package main lives (cmd/..., root)
+			outDir = filepath.Join(root, "verifcli")
 			if err := os.MkdirAll(outDir, 0o755); err != nil {
 				die("%v", err)
 			}
